@@ -229,6 +229,8 @@ func runCase(c Case) *ev.Failure {
 	if len(got) != total {
 		return ev.Failf("%d Kafka messages published for %d data records", len(got), total)
 	}
+	sch := protoSchema()
+	kc := consumer.NewKafkaConsumer(consumer.ConsumerInput{KafkaProtoSchema: sch, MsgDelimitWithLen: true})
 	k := 0
 	for mi, m := range c.Msgs {
 		if m.Tpl {
@@ -288,9 +290,7 @@ func runCase(c Case) *ev.Failure {
 					return ev.Failf("%s: proto field %d = %q although the record has no such element", where, num, v)
 				}
 			}
-			// consumer side
-			sch := protoSchema()
-			kc := consumer.NewKafkaConsumer(consumer.ConsumerInput{KafkaProtoSchema: sch, MsgDelimitWithLen: true})
+			// consumer side: one consumer and schema object for the whole stream, as cmd/consumer uses it
 			if err := kc.DecodeAndPrintMsg(&sarama.ConsumerMessage{Topic: p.topic, Value: p.value}); err != nil {
 				return ev.Failf("%s: the consumer-side decoder rejects the payload: %v", where, err)
 			}
